@@ -1,40 +1,57 @@
 import Chihaya.Props.Redis
 /-!
-# C04 (Redis): every interleaving of the round trips of concurrent announce operations
+# C04 / C05 / C17 (Redis): every interleaving of the round trips of concurrent operations
 
 The Redis store is not protected by a lock: a store operation is a *sequence of round trips* to the
-server, and the round trips of concurrently running operations interleave freely. What the code
-relies on (and what the source fact `redis_command_groups` re-extracts on every run) is the shape
+server, and the round trips of concurrently running operations — of one tracker instance or of several
+sharing the Redis — interleave freely. What the code relies on (and what the source fact
+`redis_command_groups` re-extracts on every run) is the shape
 
   * first round trip: the operation's whole membership change, as one atomic command group
-    (`MULTI … EXEC` for PutSeeder / PutLeecher / GraduateLeecher, the single `HDEL` of the deletes);
-  * then zero or more `INCR`/`DECR` round trips on the counter keys, decided by the replies of the
-    first round trip alone.
+    (`MULTI … EXEC` for PutSeeder / PutLeecher / GraduateLeecher, the single `HDEL` of the deletes,
+    the two optimistic `WATCH … MULTI … EXEC` groups of the collector per swarm key);
+  * then zero or more `INCR`/`DECR`/`DECRBY` round trips on the counter keys, decided by the replies
+    of the first round trip alone.
 
 This file gives that semantics (threads, each running a program of operations; a step is ONE round
 trip of ONE thread) and proves, for every number of threads, every program and every schedule:
 
   at every configuration in which no operation is in flight, the Redis state is *exactly* the state
-  the sequential model (`RedisStore.apply`, the subject of `Props/Redis.lean`) reaches by running the
-  operations one at a time in the order of their first round trips; every operation returned what it
-  returns in that sequential run; each thread's operations appear in program order; and an operation
-  that finished before another started precedes it.
+  the sequential model reaches by running the operations one at a time in the order of their first
+  round trips; every operation returned what it returns in that sequential run; each thread's
+  operations appear in program order; and an operation that finished before another started
+  precedes it.
 
 Hence all sequential theorems (refinement to the memory store's specification, single role, totals =
-recount) hold at quiescent points of every concurrent execution — the C04 claim for Redis. The expiry
-pass is *not* of this shape (its read and its removal are different round trips on the membership):
-`D4_gc_race_witness`, known finding D4.
+recount, expiry removes exactly the entries not after the cutoff) hold at quiescent points of every
+concurrent execution, expiry passes of any number of instances included. Before the repairs D4 and D16
+the collector was not of this shape (`D4_gc_race_witness`: read and removal were separate round trips
+on the membership; D16: the infohash count was decremented inside the group, whether or not the group
+removed anything).
 -/
 namespace RedisConc
 open RedisStore
 open MemStore (Op peerKey)
 
-def AOp.toOp : AOp → Op
-  | .putSeeder ih p now => .putSeeder ih p now
-  | .putLeecher ih p now => .putLeecher ih p now
-  | .graduate ih p now => .graduate ih p now
-  | .deleteSeeder ih p => .deleteSeeder ih p
-  | .deleteLeecher ih p => .deleteLeecher ih p
+/-- the announce-path operations as operations of the sequential model -/
+def AOp.toOp? : AOp → Option Op
+  | .putSeeder ih p now => some (.putSeeder ih p now)
+  | .putLeecher ih p now => some (.putLeecher ih p now)
+  | .graduate ih p now => some (.graduate ih p now)
+  | .deleteSeeder ih p => some (.deleteSeeder ih p)
+  | .deleteLeecher ih p => some (.deleteLeecher ih p)
+  | _ => none
+
+/-- the sequential meaning of an operation: `RedisStore.apply` for the announce path, the two halves
+of `RedisStore.gcKey` for the collector's groups -/
+def AOp.seq (s : RState) : AOp → RState
+  | .putSeeder ih p now => apply s (.putSeeder ih p now)
+  | .putLeecher ih p now => apply s (.putLeecher ih p now)
+  | .graduate ih p now => apply s (.graduate ih p now)
+  | .deleteSeeder ih p => apply s (.deleteSeeder ih p)
+  | .deleteLeecher ih p => apply s (.deleteLeecher ih p)
+  | .gcHash f r ih cutoff => RedisStore.gcHash s f (swarmKey f r ih) cutoff
+  | .gcIdx f r ih => RedisStore.gcIdx s f (swarmKey f r ih)
 
 theorem applyDeltas_dIf (b : Bool) (s : RState) (f : Fam) (k : CKind) (d : Int) :
     applyDeltas s (dIf b f k d) = addIf b s f k d := by
@@ -45,7 +62,7 @@ theorem applyDeltas_append (s : RState) (a b : List Delta) :
   simp [applyDeltas, List.foldl_append]
 
 /-- an operation run alone is the operation of the sequential model -/
-theorem seqOp_eq_apply (s : RState) (o : AOp) : seqOp s o = apply s o.toOp := by
+theorem seqOp_eq_seq (s : RState) (o : AOp) : seqOp s o = o.seq s := by
   cases o with
   | putSeeder ih p now =>
     show _ = putSeeder s ih p now
@@ -69,6 +86,20 @@ theorem seqOp_eq_apply (s : RState) (o : AOp) : seqOp s o = apply s o.toOp := by
     rw [deleteLeecher_eq]
     simp only [seqOp, first]
     split <;> rfl
+  | gcHash f r ih cutoff =>
+    show _ = RedisStore.gcHash s f (swarmKey f r ih) cutoff
+    simp only [seqOp, first, RedisStore.gcHash, gcHashApply, applyDeltas_dIf, addIf]
+    by_cases h : (gcKeyRead s (swarmKey f r ih) cutoff).length > 0 <;> simp [h]
+  | gcIdx f r ih =>
+    show _ = RedisStore.gcIdx s f (swarmKey f r ih)
+    simp only [seqOp, first, RedisStore.gcIdx]
+    split
+    · simp only [applyDeltas_dIf, addIf]
+    · rfl
+
+theorem seqOp_eq_apply (s : RState) (o : AOp) (op : Op) (h : o.toOp? = some op) : seqOp s o = apply s op := by
+  rw [seqOp_eq_seq]
+  cases o <;> simp only [AOp.toOp?, Option.some.injEq] at h <;> first | (subst h; rfl) | cases h
 
 /-- and returns what the sequential model's operation returns -/
 theorem first_result (s : RState) (o : AOp) :
@@ -79,6 +110,7 @@ theorem first_result (s : RState) (o : AOp) :
   cases o with
   | deleteSeeder ih p => simp only [first, deleteSeeder_eq]; split <;> rfl
   | deleteLeecher ih p => simp only [first, deleteLeecher_eq]; split <;> rfl
+  | gcIdx f r ih => simp only [first]; split <;> rfl
   | _ => rfl
 
 /-! ## the first round trip never looks at the counters -/
@@ -113,6 +145,17 @@ theorem core2_withC (s : RState) (c : Counters) (f : Fam) (kA kB pk : Bytes) (no
     core2 (withC s c) f kA kB pk now = (withC (core2 s f kA kB pk now).1 c, (core2 s f kA kB pk now).2) := by
   simp only [core2, hset_withC, idxSet_withC, hdel_withC]
 
+theorem fold_hdel_withC (stale : List (Bytes × Int)) (s : RState) (c : Counters) (k : Bytes) :
+    stale.foldl (fun acc e => (hdel acc k e.1).1) (withC s c) = withC (stale.foldl (fun acc e => (hdel acc k e.1).1) s) c := by
+  induction stale generalizing s with
+  | nil => rfl
+  | cons e rest ih =>
+    simp only [List.foldl_cons, hdel_withC]
+    exact ih _
+
+theorem setIdx_withC (s : RState) (c : Counters) (f : Fam) (m : MemStore.PMap) :
+    setIdx (withC s c) f m = withC (setIdx s f m) c := by cases f <;> rfl
+
 theorem first_withC (s : RState) (c : Counters) (o : AOp) :
     first (withC s c) o = (withC (first s o).1 c, (first s o).2) := by
   cases o with
@@ -121,6 +164,14 @@ theorem first_withC (s : RState) (c : Counters) (o : AOp) :
   | graduate ih p now => simp only [first, core2_withC]
   | deleteSeeder ih p => simp only [first, hdel_withC]; split <;> rfl
   | deleteLeecher ih p => simp only [first, hdel_withC]; split <;> rfl
+  | gcHash f r ih cutoff =>
+    simp only [first]
+    rw [show gcKeyRead (withC s c) (swarmKey f r ih) cutoff = gcKeyRead s (swarmKey f r ih) cutoff from rfl, fold_hdel_withC]
+  | gcIdx f r ih =>
+    simp only [first]
+    rw [show hget (withC s c) (swarmKey f r ih) = hget s (swarmKey f r ih) from rfl,
+      show idx (withC s c) f = idx s f from by cases f <;> rfl, setIdx_withC]
+    split <;> rfl
 
 /-- the membership part of the server state: everything but the counters -/
 def mem (s : RState) : RState := withC s {}
@@ -339,16 +390,16 @@ first round trips), every operation returned what it returns in that sequential 
 operations appear in its program order. -/
 theorem Redis_quiescent_sequential {n : Nat} {s₀ : RState} {progs : Nat → List AOp}
     (hn : ∀ t, n ≤ t → progs t = []) {c : Config} (hr : Reach (Init s₀ progs) c) (hq : Quiescent c) :
-    c.s = (opsOf c).foldl (fun s o => apply s o.toOp) s₀ ∧
+    c.s = (opsOf c).foldl (fun s o => o.seq s) s₀ ∧
     c.log.map (·.2.2) = seqResults s₀ (opsOf c) ∧
     ∀ t, logOf c t ++ (c.thr t).todo = progs t := by
   have h := inv_reach hn hr
   refine ⟨?_, h.res, h.prog⟩
-  have e : (opsOf c).foldl (fun s o => apply s o.toOp) s₀ = seqRun s₀ (opsOf c) := by
+  have e : (opsOf c).foldl (fun s o => o.seq s) s₀ = seqRun s₀ (opsOf c) := by
     simp only [seqRun]
     congr 1
     funext s o
-    exact (seqOp_eq_apply s o).symm
+    exact (seqOp_eq_seq s o).symm
   rw [e]
   apply eq_of_mem_c h.mem
   apply counters_ext
@@ -377,7 +428,7 @@ state is a sequential run of *all* of them -/
 theorem Redis_all_done {n : Nat} {s₀ : RState} {progs : Nat → List AOp}
     (hn : ∀ t, n ≤ t → progs t = []) {c : Config} (hr : Reach (Init s₀ progs) c)
     (hd : ∀ t, c.thr t = ⟨[], []⟩) :
-    c.s = (opsOf c).foldl (fun s o => apply s o.toOp) s₀ ∧ ∀ t, logOf c t = progs t := by
+    c.s = (opsOf c).foldl (fun s o => o.seq s) s₀ ∧ ∀ t, logOf c t = progs t := by
   have hq : Quiescent c := fun t => by rw [hd t]
   obtain ⟨a, _, b⟩ := Redis_quiescent_sequential hn hr hq
   refine ⟨a, fun t => ?_⟩
@@ -385,24 +436,104 @@ theorem Redis_all_done {n : Nat} {s₀ : RState} {progs : Nat → List AOp}
   rw [hd t] at this
   simpa using this
 
-/-- **corollary (C01/C17 for Redis under concurrency)**: started from the empty server, at every
-quiescent point of every schedule the view is the specification's fold over the logged operations,
-the invariant of the sequential model holds (single role, registered swarms) and the exported totals
-are the recount. -/
-theorem Redis_quiescent_spec {n : Nat} {progs : Nat → List AOp}
-    (hn : ∀ t, n ≤ t → progs t = []) {c : Config} (hr : Reach (Init {} progs) c) (hq : Quiescent c) :
-    let ops := (opsOf c).map AOp.toOp
-    view c.s = ops.foldl (fun σ op => op.spec σ) (fun _ _ => MemStore.emptySwarm) ∧
+/-! ## what the sequential run means: the specification -/
+
+open MemStore (View SwarmOK)
+
+/-- the effect of an operation on the view: the memory store's specification for the announce path;
+the collector's removal group keeps, in one role of one swarm, exactly the entries after the cutoff;
+unregistering an empty hash is invisible -/
+def AOp.spec : AOp → View → View
+  | .putSeeder ih p now => (Op.putSeeder ih p now).spec
+  | .putLeecher ih p now => (Op.putLeecher ih p now).spec
+  | .graduate ih p now => (Op.graduate ih p now).spec
+  | .deleteSeeder ih p => (Op.deleteSeeder ih p).spec
+  | .deleteLeecher ih p => (Op.deleteLeecher ih p).spec
+  | .gcHash f r ih cutoff => fun σ ih' f' =>
+      if ih = ih' ∧ f = f' then setRole r ((roleOf r (σ ih f)).filter (fun e => decide (e.2 > cutoff))) (σ ih f) else σ ih' f'
+  | .gcIdx _ _ _ => id
+
+/-- every operation, run alone from a state satisfying the invariant, keeps the invariant and acts on
+the view by its specification -/
+theorem seq_refines (s : RState) (h : RInv s) (o : AOp) : RInv (o.seq s) ∧ view (o.seq s) = o.spec (view s) := by
+  cases o with
+  | putSeeder ih p now => exact ⟨Redis_step s h (.putSeeder ih p now), Redis_refines s h (.putSeeder ih p now)⟩
+  | putLeecher ih p now => exact ⟨Redis_step s h (.putLeecher ih p now), Redis_refines s h (.putLeecher ih p now)⟩
+  | graduate ih p now => exact ⟨Redis_step s h (.graduate ih p now), Redis_refines s h (.graduate ih p now)⟩
+  | deleteSeeder ih p => exact ⟨Redis_step s h (.deleteSeeder ih p), Redis_refines s h (.deleteSeeder ih p)⟩
+  | deleteLeecher ih p => exact ⟨Redis_step s h (.deleteLeecher ih p), Redis_refines s h (.deleteLeecher ih p)⟩
+  | gcHash f r ih cutoff =>
+    obtain ⟨a, b, _⟩ := gcHash_step s h f r ih cutoff
+    refine ⟨a, ?_⟩
+    funext ih' f'
+    show view (RedisStore.gcHash s f (swarmKey f r ih) cutoff) ih' f' = _
+    rw [b]
+    simp only [AOp.spec, roleOf_view]
+  | gcIdx f r ih =>
+    obtain ⟨a, b⟩ := gcIdx_step s h f r ih
+    exact ⟨a, by funext ih' f'; exact b ih' f'⟩
+
+theorem seqFold_refines (ops : List AOp) (s : RState) (h : RInv s) :
+    RInv (ops.foldl (fun s o => o.seq s) s) ∧
+    view (ops.foldl (fun s o => o.seq s) s) = ops.foldl (fun σ o => o.spec σ) (view s) := by
+  induction ops generalizing s with
+  | nil => exact ⟨h, rfl⟩
+  | cons o rest ih =>
+    obtain ⟨a, b⟩ := seq_refines s h o
+    have := ih (o.seq s) a
+    simp only [List.foldl_cons]
+    rw [← b]
+    exact this
+
+/-- **corollary (C01/C05/C17 for Redis under concurrency)**: started from a state satisfying the
+invariant (the empty server, say), at every quiescent point of every schedule — announces, deletes and
+the collector groups of any number of expiry passes interleaved at will — the view is the
+specification's fold over the logged operations, the invariant of the sequential model holds (single
+role, every non-empty swarm registered) and the exported totals are the recount. -/
+theorem Redis_quiescent_spec {n : Nat} {s₀ : RState} (h₀ : RInv s₀) {progs : Nat → List AOp}
+    (hn : ∀ t, n ≤ t → progs t = []) {c : Config} (hr : Reach (Init s₀ progs) c) (hq : Quiescent c) :
+    view c.s = (opsOf c).foldl (fun σ o => o.spec σ) (view s₀) ∧
     RInv c.s ∧
     totals c.s = (((sumW wSeed c.s.idx4 + sumW wSeed c.s.idx6 : Nat) : Int),
                   ((sumW (wLen .v4 true) c.s.hashes + sumW (wLen .v6 true) c.s.hashes : Nat) : Int),
                   ((sumW (wLen .v4 false) c.s.hashes + sumW (wLen .v6 false) c.s.hashes : Nat) : Int)) := by
-  intro ops
-  have e : c.s = ops.foldl apply {} := by
-    rw [(Redis_quiescent_sequential hn hr hq).1]
-    simp only [ops, List.foldl_map]
+  have e := (Redis_quiescent_sequential hn hr hq).1
+  obtain ⟨a, b⟩ := seqFold_refines (opsOf c) s₀ h₀
   rw [e]
-  exact ⟨Redis_history ops, Redis_reachable ops, Redis_totals ops⟩
+  exact ⟨b, a, totals_of_inv _ a⟩
+
+theorem roleOf_setRole (r : Bool) (m : MemStore.PMap) (sw : MemStore.Swarm) : roleOf r (setRole r m sw) = m := by
+  cases r <;> rfl
+
+theorem roleOf_setRole_other (r : Bool) (m : MemStore.PMap) (sw : MemStore.Swarm) : roleOf (!r) (setRole r m sw) = roleOf (!r) sw := by
+  cases r <;> rfl
+
+/-- **C05 under concurrency**: the collector's removal group, wherever it falls in the sequential order,
+removes from the role it works on exactly the entries whose time is not after the cutoff — an entry
+announced (again) after the cutoff before the group commits is kept — and touches nothing else: not the
+other role, not another swarm, not the other family. -/
+theorem gcHash_exact (σ : View) (f : Fam) (r : Bool) (ih : Bytes) (T : Int) (hok : SwarmOK (σ ih f)) (pk : Bytes) (t : Int) :
+    (AMap.get (roleOf r ((AOp.gcHash f r ih T).spec σ ih f)) pk = some t ↔ AMap.get (roleOf r (σ ih f)) pk = some t ∧ t > T) ∧
+    roleOf (!r) ((AOp.gcHash f r ih T).spec σ ih f) = roleOf (!r) (σ ih f) ∧
+    (∀ ih' f', ¬ (ih = ih' ∧ f = f') → (AOp.gcHash f r ih T).spec σ ih' f' = σ ih' f') := by
+  have hwf : AMap.WF (roleOf r (σ ih f)) := by cases r; exact hok.2.1; exact hok.1
+  refine ⟨?_, ?_, ?_⟩
+  · simp only [AOp.spec, and_self, if_true, roleOf_setRole]
+    rw [MemStore.get_filter _ hwf]
+    cases hg : AMap.get (roleOf r (σ ih f)) pk with
+    | none => simp
+    | some v =>
+      simp only [Option.bind_some, decide_eq_true_eq]
+      split
+      · rename_i h; constructor
+        · intro e; cases e; exact ⟨rfl, h⟩
+        · intro ⟨e, _⟩; exact e
+      · rename_i h; constructor
+        · intro e; cases e
+        · intro ⟨e, ht⟩; cases e; exact absurd ht h
+  · simp only [AOp.spec, and_self, if_true, roleOf_setRole_other]
+  · intro ih' f' hne
+    simp only [AOp.spec, hne, if_false]
 
 /-! ## an executable scheduler, and a real interleaving (non-vacuity) -/
 
@@ -445,5 +576,24 @@ example :
   refine ⟨by decide, ?_, by decide, by decide, by decide, by decide⟩
   intro h
   exact absurd (h 0) (by decide)
+
+/-- the D4 situation under the repaired collector: a seeder announced at 5; a pass with cutoff 6 runs
+its two groups on the swarm (thread 1) while the peer announces again at 10 (thread 2). Whether the
+re-announce lands before the removal group (first schedule: the group finds nothing to remove) or after
+it (second schedule: removed, then stored again), the peer is a seeder with time 10 in the end, the
+swarm is registered and the totals are (1, 1, 0). -/
+example :
+    let ih : Bytes := List.replicate 20 1
+    let p : Peer := ⟨List.replicate 20 2, 6881, [10, 0, 0, 1], .v4⟩
+    let s₀ := RedisStore.putSeeder {} ih p 5
+    let progs : Nat → List AOp := fun t =>
+      if t = 1 then [.gcHash .v4 true ih 6, .gcIdx .v4 true ih] else if t = 2 then [.putSeeder ih p 10] else []
+    let a := run (Init s₀ progs) [2, 1, 1, 2, 2, 1, 1, 2]
+    let b := run (Init s₀ progs) [1, 1, 1, 1, 1, 2, 2, 2, 2]
+    (∀ t, t < 3 → a.thr t = ⟨[], []⟩) ∧ (∀ t, t < 3 → b.thr t = ⟨[], []⟩) ∧
+    a.log.map (·.1) = [2, 1, 1] ∧ b.log.map (·.1) = [1, 1, 2] ∧
+    AMap.get (view a.s ih .v4).seeders (peerKey p) = some 10 ∧ AMap.get (view b.s ih .v4).seeders (peerKey p) = some 10 ∧
+    totals a.s = (1, 1, 0) ∧ totals b.s = (1, 1, 0) := by
+  decide
 
 end RedisConc
